@@ -85,3 +85,16 @@ pub proof fn lemma_first_char_boundary(s: Seq<char>)
         assert(byte_len(s.take(1)) == byte_len(Seq::<char>::empty()) + utf8_len(s[0]));
     }
 }
+// ascending byte offsets, each a character boundary of s and below `limit`
+pub open spec fn asc_bounds(s: Seq<char>, ps: Seq<usize>, limit: int) -> bool {
+    &&& forall|j: int| 0 <= j < ps.len() ==> boundary(s, #[trigger] ps[j] as int) && (ps[j] as int) < limit
+    &&& forall|i: int, j: int| 0 <= i < j < ps.len() ==> ps[i] < ps[j]
+}
+#[verifier::external_body]
+pub fn str_to_owned(s: &str) -> (r: String) ensures r@ == s@ { s.to_owned() }
+// String::insert(idx, c): panics unless idx is a character boundary; the character goes in front of the one that starts there
+#[verifier::external_body]
+pub fn string_insert(st: &mut String, idx: usize, c: char)
+    requires boundary(old(st)@, idx as int),
+    ensures forall|n: int| boundary_at(old(st)@, idx as int, n) ==> final(st)@ == old(st)@.insert(n, c),
+{ st.insert(idx, c) }
